@@ -439,3 +439,139 @@ def reshape_stream(run, drv):
             run.oracle_fail(name, case, f"content {str(tl)[:150]} expected {str(want)[:150]}", fingerprint=f"{name}:content")
         else:
             run.oracle_ok(name)
+
+
+# --------------------------------------------------------------------------- nested lists: _from_list, _cat_non_tensor, to_dict
+def _nest_sx(x, depth=None):
+    """python data -> protocol nest: a python list is a list level `(l …)`, anything else a payload atom (its id)"""
+    from common import Raw
+    if isinstance(x, list):
+        return Raw("(l" + "".join(" " + _nest_sx(y).s for y in x) + ")")
+    return Raw(N.id_of(x))
+
+
+def _nest_of_parsed(p):
+    """parse_sx of a nest -> python structure with payload ids at the leaves"""
+    if isinstance(p, list) and p and p[0] == "l":
+        return [_nest_of_parsed(y) for y in p[1:]]
+    if p == ["l"]:
+        return []
+    return p
+
+
+def _read_nested(obj):
+    """a real entry -> spec whose payloads are nests of ids (a list payload shows as a list)"""
+    def pay(x):
+        return [pay(y) for y in x] if isinstance(x, list) else N.id_of(x)
+    if isinstance(obj, NonTensorData):
+        return ["sh", pay(obj.data), [int(b) for b in obj.batch_size]]
+    if isinstance(obj, NonTensorStack):
+        return ["st", int(obj.stack_dim), [_read_nested(m) for m in obj.tensordicts]]
+    return ["other", type(obj).__name__]
+
+
+def _spec_of_parsed_nested(p):
+    if p[0] == "sh":
+        return ["sh", _nest_of_parsed(p[1]), list(p[2])]
+    return ["st", p[1], [_spec_of_parsed_nested(m) for m in p[2:]]]
+
+
+def nested_stream(run, drv):
+    """`NonTensorStack._from_list(entry.tolist(), ndim)` (what memmap / pickle loading rebuilds an entry with), `_cat_non_tensor`
+    (torch.cat of holders) and `to_dict`: representation against the model (`fromListN`, `catNT`, `toDictNT`).  For `_from_list` the
+    payload pool keeps its python LIST payload (o3 = [1, 'a']): the data is sent to the model with its JSON structure, and with
+    `ndim=None` the code takes the list payload for a batch level — the model predicts exactly that.  `cat` / `to_dict` carry payloads
+    as atoms (no list payload drawn)."""
+    n = 1200 if run.tier == "quick" else 8000
+    reqs, pend = [], []
+
+    def no_list_payload(arr):
+        arr = arr.copy()
+        arr[arr == "o3"] = "o0"
+        return arr
+    for _ in range(n):
+        shape = N.gen_shape(run.rng, 3)
+        rank = len(shape)
+        if not rank:
+            continue
+        a = N.gen_array(run.rng, shape)
+        r = run.rng.random()
+        tl = want = None
+        if r < 0.4:
+            spec = N.represent(a, run.rng)
+            entry = N.build(spec)
+            data = entry.tolist()                           # real payloads (a list payload is a python list)
+            with_ndim = run.rng.random() < 0.5
+            name = "from_list(ndim)" if with_ndim else "from_list"
+            f = lambda data=data, with_ndim=with_ndim, rank=rank: NonTensorStack._from_list(data, device=None, ndim=rank if with_ndim else None)   # noqa: E731
+            req = sx("c16.fromlist", rank - 1 if with_ndim else 9, *[_nest_sx(x) for x in data])
+            case = {"op": name, "spec": str(spec)}
+        elif r < 0.8:
+            a = no_list_payload(a)
+            spec = N.represent(a, run.rng)
+            d = run.rng.randrange(rank)
+            others = []
+            for _j in range(run.rng.randint(1, 3)):
+                sh2 = list(shape)
+                sh2[d] = run.rng.choice([1, 2, 3])
+                a2 = no_list_payload(N.gen_array(run.rng, sh2, constant=True if run.rng.random() < 0.4 else None))
+                if run.rng.random() < 0.3:                     # the same constant as the first item: the shared branch
+                    a2 = np.empty(sh2, dtype=object)
+                    a2[...] = a.reshape(-1)[0]
+                others.append((sh2, a2, N.represent(a2, run.rng)))
+            specs = [spec] + [o[2] for o in others]
+            shapes = [shape] + [o[0] for o in others]
+            holder_level = run.rng.random() < 0.5
+            dev = N.pick_device(run.rng)
+            name = "cat(holders)" if holder_level else "cat"
+            if holder_level:
+                f = lambda specs=specs, d=d, dev=dev, shapes=shapes: torch.cat([N.holder(sp, shp, dev) for sp, shp in zip(specs, shapes)], d).get("a")  # noqa: E731
+            else:
+                f = lambda specs=specs, d=d: NonTensorData._cat_non_tensor([N.build(sp) for sp in specs], d)   # noqa: E731
+            req = sx("c16.cat", d, *[N.to_sx(sp) for sp in specs])
+            case = {"op": name, "dim": d, "specs": [str(sp) for sp in specs]}
+            want = nested(np.concatenate([a] + [o[1] for o in others], axis=d))
+        else:
+            a = no_list_payload(a)
+            spec = N.represent(a, run.rng)
+            name = "to_dict"
+            f = None
+            req = sx("c16.todict", N.to_sx(spec))
+            case = {"op": name, "spec": str(spec)}
+
+        def pay(x):
+            return [pay(y) for y in x] if isinstance(x, list) else N.id_of(x)
+        try:
+            with time_limit(10):
+                if name == "to_dict":
+                    impl = ["ok", pay(N.holder(spec, shape).to_dict()["a"])]
+                else:
+                    res = f()
+                    impl = ["ok", _read_nested(res)]
+                    if name.startswith("cat"):
+                        tl = N.tolist_ids(res)
+        except TimeoutError:
+            raise
+        except Exception as ex:  # noqa: BLE001
+            impl = ["err", impl_err(ex), str(ex)[:80]]
+        run.case(("nested", name, str(case)), nontrivial=True)
+        run.count("nested.op", name)
+        reqs.append(req)
+        pend.append((case, name, impl, tl, want))
+    for (case, name, impl, tl, want), ans in zip(pend, ask(drv, reqs)):
+        m = parse_sx(ans)
+        if name == "to_dict":
+            run.corr("to_dict(representation)", case, impl[:2], ["ok", _nest_of_parsed(m)])
+            continue
+        if name.startswith("from_list"):
+            model = ["ok", _spec_of_parsed_nested(m[1])] if m[0] == "ok" else ["err"]
+        else:
+            model = ["ok", _spec_of_parsed_nested(m)]
+        run.corr(f"{name}(representation)", case, impl[:2] if impl[0] == "ok" else ["err"], model)
+        if name.startswith("cat"):
+            if impl[0] != "ok":
+                run.oracle_fail("cat", case, f"raises {impl[2]}", fingerprint=f"cat:raises:{impl[1]}")
+            elif tl != want:
+                run.oracle_fail("cat", case, f"content {str(tl)[:150]} expected {str(want)[:150]}", fingerprint="cat:content")
+            else:
+                run.oracle_ok("cat")
